@@ -148,14 +148,27 @@ def _is_number(d):
     return d[0] in ("Integer", "Rational", "RealDouble")
 
 
+def _negative_number(d):
+    if d[0] == "Integer":
+        return int(d[1]) < 0
+    if d[0] == "Rational":
+        return int(d[1]) < 0
+    if d[0] == "RealDouble":
+        return engine.hexf(d[1]) < 0
+    return False
+
+
 def m_refine_pow_abs(case, v):
-    """KF-C35-01: refine((b**k)**n) with real b, numeric k, n -> |b|**(k*n) although k is not an even integer"""
-    d = (v.detail or {}).get("dump")
-    if not d or (v.detail or {}).get("op") not in ("refine", "simplify") or not v.detail.get("with_asm"):
+    """KF-C35-01: refine((b**k)**n) with b real (by the assumptions, or a real number / constant expression), numeric
+    k, n -> |b|**(k*n) although k is not an even integer; the result shows Abs(b), or |b| evaluated when b is a number"""
+    dt = v.detail or {}
+    d = dt.get("dump")
+    if not d or dt.get("op") not in ("refine", "simplify"):
         return False
-    got = v.detail.get("result")
+    got = dt.get("result")
     for b, k, n in _nested_pows(d, []):
-        if _is_number(k) and _is_number(n) and not (k[0] == "Integer" and int(k[1]) % 2 == 0) and ar.dump_has(got, ("Abs",)):   # Abs(b) up to the sign abs() normalises
+        if _is_number(k) and _is_number(n) and not (k[0] == "Integer" and int(k[1]) % 2 == 0) and (
+                ar.dump_has(got, ("Abs",)) or _negative_number(b)):     # Abs(b) up to the sign abs() normalises
             return True
     return False
 
